@@ -9,8 +9,10 @@ Only stdlib / third-party entry points are replaced (asyncio.open_connection,
 the DNS resolver's `resolve`), never wpull's crawl logic.
 """
 import asyncio
+import io
 import os
 import shutil
+import sys
 import tempfile
 
 import compat  # noqa: F401
@@ -246,9 +248,15 @@ def read_rows(db_path):
         con.close()
 
 
+class _Tty(io.StringIO):
+    """stderr of an interactive run: the progress plugin draws its bar only on a terminal"""
+    def isatty(self):
+        return True
+
+
 def run_crawl(start_urls, site, seed=0, concurrent=1, extra=(), workdir=None, ports=(80,),
               jitter=True, on_request=None, on_table_event=None, max_steps=3_000_000, keep_db=None,
-              hosts_ips=None, on_app=None):
+              hosts_ips=None, verbose_tty=False, on_app=None):
     """Run one crawl.  `site`: {host_header: {target: Page | callable}}."""
     import random
     own = workdir is None
@@ -279,6 +287,10 @@ def run_crawl(start_urls, site, seed=0, concurrent=1, extra=(), workdir=None, po
         from wpull.application.options import AppArgumentParser
         from wpull.application.builder import Builder
         argv = default_argv(start_urls, db_path, out_dir, concurrent, extra)
+        real_stderr = sys.stderr
+        if verbose_tty:
+            argv = [a for a in argv if a != '-q'] + ['-v']
+            sys.stderr = _Tty()
         args = AppArgumentParser().parse_args(argv)
         builder = Builder(args)
         app = builder.build()
@@ -321,6 +333,8 @@ def run_crawl(start_urls, site, seed=0, concurrent=1, extra=(), workdir=None, po
         if os.path.exists(db_path):
             res.rows = read_rows(db_path)
     finally:
+        if 'real_stderr' in locals():
+            sys.stderr = real_stderr
         os.chdir(cwd)
         net.uninstall()
         wdns.Resolver.resolve = orig_resolve
